@@ -44,6 +44,14 @@ func probe(e *wl.Env) map[string]map[string]bool {
 	}
 	out["public"] = e.ProbePass(m.Pub)
 	out["other"] = e.ProbePass(wl.FreshPass(e.Rng))
+	if m.Priv != nil && m.Locked && len(m.Order) > 0 {
+		// does the current private passphrase unlock the (locked) wallet? The wallet is locked again at once.
+		err := e.W.M.Unlock(m.Priv)
+		out["unlock-with-current"] = map[string]bool{"wallet": err == nil}
+		if err == nil {
+			e.W.M.Lock()
+		}
+	}
 	return out
 }
 
